@@ -92,7 +92,19 @@ def run_case(spec):
            "api_a": rng.choice(["deferred", "delegate"]), "api_b": rng.choice(["deferred", "delegate"]),
            "versions_a": {"v": "A", "n": rng.randint(0, 9)}, "versions_b": {"v": "B"},
            "plan_a": make_plan(rng, "A", rng.randint(0, 3), 50), "plan_b": make_plan(rng, "B", rng.randint(0, 3), 50)}
+    dilated = spec["seed"] % 5 == 4
+    if dilated:
+        # Dilation requested on both wormholes; dilate() is called early on one or both (the key exchange, the
+        # verdicts and close() must be the same with it)
+        cfg["dilation"] = True
+        cfg["api_a"] = cfg["api_b"] = "deferred"
     drv = TwoParty(world, cfg)
+    if dilated:
+        for app in rng.choice([(drv.a,), (drv.b,), (drv.a, drv.b)]):
+            try:
+                app.w.dilate()
+            except Exception as e:
+                world.escapes.append((world.step, "app", "dilate()", type(e).__name__, repr(e)[:200], ""))
     # a second, unrelated pair living in the same process (same reactor, same server): its session must be
     # unaffected by, and must not affect, the pair under test
     by = None
@@ -252,7 +264,7 @@ def run_case(spec):
     return {"violations": viol, "nontrivial": nontrivial,
             "counters": {"match_cases": int(expect_match), "mismatch_cases": int(not expect_match and met),
                          "never_met_cases": int(not met), "pake_before_code": s01, "derive_checks": derive_checks, "derive_repeated_purpose": repeated[0],
-                         "class_" + kind: 1, "bystander_pairs": int(by is not None)},
+                         "class_" + kind: 1, "bystander_pairs": int(by is not None), "dilated_cases": int(dilated)},
             "sample": {"spec": spec, "code_a": code_a, "code_b": code_b, "appid_a": appid_a, "appid_b": appid_b,
                        "expect_match": expect_match, "b_mode": b_mode, "late_words": late_words,
                        "verdicts": [va, vb], "A": drv.a.kinds(), "B": drv.b.kinds(),
